@@ -40,7 +40,7 @@ Proof. exact word_bool_false_iff. Qed.
 Print Assumptions C18_cli_false.
 
 (* the premise of abstracting from time in this property's model: the code it models waits, polls and gives up
-   exactly where the model says (primitive codes in Proofs/W_*.v); re-extracted from the source on every run *)
+   with exactly the kinds of primitives the model accounts for (codes in Proofs/W_*.v); re-extracted from the source on every run *)
 Require Import GV.Gen.Consts GV.Proofs.W_input_main GV.Proofs.W_input_input GV.Proofs.W_input_joystick GV.Proofs.W_control_main.
 Theorem C18_time_abstraction : waits_input_main = (@nil Z) /\ waits_input_input = (@nil Z) /\ waits_input_joystick = (@nil Z) /\ waits_control_main = (@nil Z).
 Proof. exact (conj w_input_main (conj w_input_input (conj w_input_joystick w_control_main))). Qed.
